@@ -59,11 +59,44 @@ def check(model: Model, rep: Report, tier: str):
     from .common import front_delegation
     with rep.isolated():
         front_delegation(model, rep, "C02.L10", "DeclarativeCircuit", "operations", "decomposed_operations", True, "the listing read from a circuit is not always the current expansion of its structure")
-    from .c05 import _k1_k2
+    with rep.isolated():
+        l15(model, rep)
+    from .c05 import _k1_k2, _k3
     from .common import share_rule
+    with rep.isolated():
+        share_rule(rep, model, _k3, "C02.L14", "a nested sub-circuit is listed through its copy, and the copy holds every operation of the original: CircuitCompositeOperation.copy walks "
+                   "the whole node iterator and copies, registers and adds every node unconditionally (= C05.K3); a node skipped by a test is lost from the listing with everything behind it")
     with rep.isolated():
         share_rule(rep, model, _k1_k2, "C02.L8", "a nested sub-circuit is listed through its copy: every operation class's copy() keeps kind, qubits, "
                    "channels and duration strategy (= C05.K1/K2), so expansion in place lists the added leaves unchanged")
+
+
+def l15(model: Model, rep: Report):
+    """Hashing a graph node does not hash the operation it wraps."""
+    rep.rule("C02.L15", "OperationGraphNode hashes without hashing its operation (identity, or its own identifier): every add de-duplicates the node layers through a hash container, "
+                        "and an operation's generated hash walks its whole relation chain -- a node hash that includes the operation recurses once per operation of the chain and "
+                        "fails (RecursionError) on chains far below the documented depth limit")
+    from .c05 import hash_kind
+    N = model.cls("OperationGraphNode")
+    hk = hash_kind(N)
+    ok, why = False, hk
+    if hk == "identity":
+        ok, why = True, "identity hash"
+    elif hk.startswith("explicit:"):
+        K = model.cls(hk.split(":", 1)[1])
+        h = K.methods["__hash__"][0]
+        reads = {x.attr for x in ast.walk(h.node) if isinstance(x, ast.Attribute) and isinstance(x.value, ast.Name) and x.value.id == h.self_name}
+        whole = any(isinstance(x, ast.Call) and (ast.unparse(x.func) in ("astuple", "dataclasses.astuple", "fields", "vars")) for x in ast.walk(h.node))
+        ok = "operation" not in reads and not whole
+        why = f"{K.name}.__hash__ reads {sorted(reads) or 'no field (id(self))'}"
+    elif hk == "fields":
+        flds = N.all_fields()
+        hashed = [n for n, fi in flds.items() if (fi.compare if fi.hash is None else fi.hash)]
+        ok = "operation" not in hashed
+        why = f"generated from the fields {hashed}"
+    rep.check(ok, "C02.L15", "OperationGraphNode[hash]", N.loc, found=why, required="a hash that does not involve the wrapped operation",
+              what="hashing a graph node hashes its operation, whose generated hash follows the relation chain: the depth of one hash grows with the number of operations added one after "
+                   "another, and adding fails with RecursionError long before the documented graph depth (" + why + ")", detail="node-hash")
 
 
 def flat_events(p: Path) -> List[Event]:
